@@ -219,10 +219,30 @@ def ref_keys(vals, which, sigma):
     raise KeyError(w)
 
 
-def oracle_selection(ctx, key, desc, all_vals, out_vals, which, sigma, k, tol=1e-7):
+def _selection_defect(all_vals, out, which, sigma, tol):
+    """True when some eigenvalue that was left out is strictly better than a returned one (or a returned value is
+    not an eigenvalue) - the pure predicate, no reporting"""
+    rest = list(np.asarray(all_vals).astype(complex))
+    out = np.asarray(out).astype(complex).reshape(-1)
+    for x in out:
+        j = int(np.argmin([abs(x - y) for y in rest])) if rest else -1
+        if j < 0 or abs(rest[j] - x) > tol * max(1.0, abs(x)):
+            return True
+        rest.pop(j)
+    if rest and out.size:
+        ko = ref_keys(out, which, sigma)
+        kr = ref_keys(rest, which, sigma)
+        scale = max(1.0, float(np.max(np.abs(ko))), float(np.max(np.abs(kr))))
+        return bool(np.max(ko) > np.min(kr) + tol * scale)
+    return False
+
+
+def oracle_selection(ctx, key, desc, all_vals, out_vals, which, sigma, k, tol=1e-7, backend_recheck=None):
     """direct property oracle: the returned values are k of the spectrum and none left out is strictly
     better (tolerance `tol`).  Used as the searcher when the correspondence disagrees and on every
-    oracle-stream case."""
+    oracle-stream case.  `backend_recheck` (iterative backends only): a callable that runs the underlying
+    solver directly; when the solver itself misses the better eigenvalue the miss is the backend's documented
+    inexactness (ARPACK can skip an eigenvalue), not quimb's selection logic, and is counted, not reported."""
     all_vals = np.asarray(all_vals).astype(complex)
     out = np.asarray(out_vals).astype(complex).reshape(-1)
     want = min(k, all_vals.size)
@@ -241,6 +261,14 @@ def oracle_selection(ctx, key, desc, all_vals, out_vals, which, sigma, k, tol=1e
         kr = ref_keys(rest, which, sigma)
         scale = max(1.0, float(np.max(np.abs(ko))), float(np.max(np.abs(kr))))
         if np.max(ko) > np.min(kr) + tol * scale:
+            if backend_recheck is not None:
+                try:
+                    direct = backend_recheck()
+                except Exception:  # noqa: BLE001
+                    direct = None
+                if direct is not None and _selection_defect(all_vals, direct, which, sigma, tol):
+                    ctx.bump("oracle:iterative_backend_itself_missed_an_eigenvalue")
+                    return False
             ctx.violation(key + ":selection", f"which={which} sigma={sigma}: a value that was left out is strictly better than a returned one", desc)
             return False
     return True
@@ -980,7 +1008,16 @@ def partial_oracle(ctx):
         lk, vk = out if rv else (out, None)
         lk = np.asarray(lk)
         tol = 1e-3 if backend == "lobpcg" else 1e-7  # lobpcg is documented as inaccurate
-        ok = oracle_selection(ctx, key, desc, allv, lk, eff_which, sigma, k, tol=tol)
+        recheck = None
+        if tag in ("scipy", "auto->scipy"):
+            def recheck(A=A, B=B, k=k, which=which, sigma=sigma, herm=herm, opts=dict(opts)):
+                # the same call quimb.linalg.scipy_linalg.eigs_scipy makes (its option mapping), straight to ARPACK
+                import scipy.sparse.linalg as spla_
+                w = ("SA" if (which is None and sigma is None) else "LM" if (which is None or "T" in which.upper()) and sigma is not None
+                     else which)
+                fn = spla_.eigsh if herm else spla_.eigs
+                return fn(A, k=k, M=B, which=w, sigma=sigma, return_eigenvectors=False, tol=0, **opts)
+        ok = oracle_selection(ctx, key, desc, allv, lk, eff_which, sigma, k, tol=tol, backend_recheck=recheck)
         if not ok:
             continue
         # documented order: ascending
@@ -1521,8 +1558,16 @@ def options_oracle(ctx):
             l2, V = qu.eig(_as_rep(N, rep), k=k, which=which, backend=backend)
             V2 = np.asarray(qu.eigvecs(_as_rep(N, rep), k=k, which=which, backend=backend))
             l2, V = np.asarray(l2), np.asarray(V)
-            ok = oracle_selection(ctx, f"options:{tag}:nonherm:eigvals", {**desc, "call": "eigvals(k)"}, en, l1, which, None, k)
-            ok = ok and oracle_selection(ctx, f"options:{tag}:nonherm:eig", {**desc, "call": "eig(k)"}, en, l2, which, None, k)
+            recheck = None
+            if backend != "numpy":
+                def recheck(N=N, k=k, which=which):
+                    # what eigs_scipy asks ARPACK for (non-hermitian, no shift); only consulted after a selection failure
+                    import scipy.sparse.linalg as spla_
+                    return spla_.eigs(N, k=k, which=which, return_eigenvectors=False, tol=0)
+            ok = oracle_selection(ctx, f"options:{tag}:nonherm:eigvals", {**desc, "call": "eigvals(k)"}, en, l1, which, None, k,
+                                  backend_recheck=recheck)
+            ok = ok and oracle_selection(ctx, f"options:{tag}:nonherm:eig", {**desc, "call": "eig(k)"}, en, l2, which, None, k,
+                                         backend_recheck=recheck)
             if ok:
                 for nm, W in (("eig", V), ("eigvecs", V2)):
                     if W.shape != (d, k) or np.abs(N @ W - W * l2[None, :]).max() > 1e-7 * d * max(1.0, float(np.abs(N).max())):
